@@ -123,9 +123,25 @@ def _worker(args):
         r = Result("harness-fault")
         r.extra["fault"] = [f"shard exceeded the {limit}s watchdog (implementation does not terminate or is pathologically slow): {json.dumps(shard, default=str)[:300]}"]
         return r.finish()
-    except Exception as e:  # harness fault inside a shard: surface it, never swallow
+    except Exception as e:  # noqa: BLE001
         import traceback
 
+        tb = traceback.extract_tb(e.__traceback__)
+        src = os.path.realpath(PTA_SRC)
+        if tb and os.path.realpath(tb[-1].filename).startswith(src + os.sep):
+            # the exception was raised inside the implementation under test at a point where the check
+            # expects none (building an architecture, scanning a valid tree, defining layers ...): on the
+            # unchanged tree this never happens, so it is reported as a violation of the property, replayed
+            # by re-running the shard
+            r = Result(shard.get("bound", "all") if isinstance(shard, dict) else "all")
+            r.violation("implementation-raised-where-the-property-promises-a-result", {"shard": shard},
+                        "no exception", f"{type(e).__name__}: {e} at {os.path.relpath(tb[-1].filename, src)}:{tb[-1].lineno}",
+                        signature=f"implementation-raised:{type(e).__name__}:{os.path.relpath(tb[-1].filename, src)}")
+            for v in r.violations:
+                v["_shard"] = shard
+                v["_raised"] = True
+            return r.finish()
+        # harness fault inside a shard: surface it, never swallow
         r = Result("harness-fault")
         r.extra["fault"] = [f"{type(e).__name__}: {e}\n{traceback.format_exc()}"]
         return r.finish()
@@ -248,7 +264,7 @@ def execute(mod, tier: str, seed: int) -> int:
     known = load_known_findings(prop)
     by_sig: dict[str, dict] = {}
     for v in total.violations:
-        if hasattr(mod, "minimise"):
+        if hasattr(mod, "minimise") and not v.get("_raised"):
             try:
                 v = mod.minimise(v)
             except Exception:  # minimisation is best effort
@@ -272,9 +288,9 @@ def execute(mod, tier: str, seed: int) -> int:
         h = hashlib.sha1(sig.encode()).hexdigest()[:12]
         path = os.path.join(rdir, f"{h}.json")
         with open(path, "w") as f:
-            json.dump({"property": prop, **{k: x for k, x in v.items() if k != "_shard"}}, f, indent=1, sort_keys=True, default=str)
+            json.dump({"property": prop, **{k: x for k, x in v.items() if k not in ("_shard", "_raised")}}, f, indent=1, sort_keys=True, default=str)
             f.write("\n")
-        if not confirm(path):
+        if v.get("_raised") or not confirm(path):
             # the case alone does not reproduce: the failure depends on what the implementation
             # was asked before within the same shard (hidden state); replay the whole shard
             shard_rec = {"property": prop, "kind": v["kind"], "signature": sig, "shard": v.get("_shard"),
